@@ -43,6 +43,22 @@ def strip_comments(s):
     return re.sub(r'//[^\n]*', '', s)
 
 
+def drop_trace(body):
+    """remove what only produces trace output: `++trace << ...;`, `trace << ...;`, `indent _(trace);` and whole
+    `if constexpr (trace_enabled) { ... }` blocks (without else)"""
+    while True:
+        m = re.search(r'\bif\s+constexpr\s*\(\s*trace_enabled\s*\)\s*\{', body)
+        if not m:
+            break
+        e = balanced(body, m.end() - 1, '{', '}')
+        if re.match(r'\s*else\b', body[e:]):
+            raise Unsupported('`if constexpr (trace_enabled)` with an else branch')
+        body = body[:m.start()] + body[e:]
+    body = re.sub(r'(?m)^\s*(\+\+trace|trace\s*<<)[^;]*;', '', body)
+    body = re.sub(r'(?m)^\s*indent\s+_\w*\(trace\);', '', body)
+    return body
+
+
 def tokenize(text):
     toks = []
     pos = 0
@@ -310,17 +326,35 @@ class Parser:
                 # range-for?
                 save = self.i
                 if self.looks_like_decl():
+                    var = None
                     try:
                         self.parse_type_text()
-                        nm = self.next()
-                        if nm[0] == 'id' and self.at(':'):
+                        if self.at('['):
+                            # structured binding:  for (const auto& [a, b] : e)
                             self.next()
-                            e = self.parse_expr()
-                            self.expect(')')
-                            body = self.parse_stmt()
-                            return ('rangefor', nm[1], e, body)
+                            names = []
+                            while not self.at(']'):
+                                t = self.next()
+                                if t[0] != 'id':
+                                    raise Unsupported('structured binding')
+                                names.append(t[1])
+                                if self.at(','):
+                                    self.next()
+                            self.next()
+                            if self.at(':'):
+                                var = tuple(names)
+                        else:
+                            nm = self.next()
+                            if nm[0] == 'id' and self.at(':'):
+                                var = nm[1]
                     except Unsupported:
-                        pass
+                        var = None
+                    if var is not None:
+                        self.next()
+                        e = self.parse_expr()
+                        self.expect(')')
+                        body = self.parse_stmt()
+                        return ('rangefor', var, e, body)
                     self.i = save
                 init = None
                 if not self.at(';'):
